@@ -69,7 +69,11 @@ def check_kepler(e, m):
     if abs(abs((EE._deg + 180.0) % 360.0 - 180.0) - 180.0) > 1e-6:
         lhs = math.tan(v.rad() / 2.0)
         rhs = math.sqrt((1.0 + e) / (1.0 - e)) * math.tan(Er / 2.0)
-        if abs(lhs - rhs) > 1e-9 * max(1.0, abs(rhs)):
+        # compared as angles near E = 180 (the tangents are ill-conditioned there), as tangents elsewhere
+        vexp = 2.0 * math.degrees(math.atan2(math.sqrt(1.0 + e) * math.sin(Er / 2.0),
+                                             math.sqrt(1.0 - e) * math.cos(Er / 2.0)))
+        dv = abs((v._deg - vexp + 180.0) % 360.0 - 180.0)
+        if (abs(rhs) <= 1e3 and abs(lhs - rhs) > 1e-9 * max(1.0, abs(rhs))) or (abs(rhs) > 1e3 and dv > 1e-8):
             out.append(("true_anomaly", "kepler_equation(%r, %r): tan(v/2) = %r, sqrt((1+e)/(1-e)) tan(E/2) = %r"
                         % (e, m, lhs, rhs), abs(lhs - rhs)))
     return out
@@ -89,6 +93,42 @@ def run_kepler(block, ctx):
         ctx.obs(e, m, len(res))
     ctx.outcome((e, len(ms)))
     ctx.sample({"e": e, "M": ms[len(ms) // 3]})
+
+
+# -- a call right after a call with almost the same arguments ------------------------------------
+
+SEQ_M = [0.0, 1e-6, 5.0, 45.0, 90.0, 179.0, 180.0, 200.0, 359.999999, 925.0, -9999.25, 1e4]
+SEQ_D = [6e-8, 1e-7, -3e-7, 4.9e-7, 9e-7, 3e-6, 1e-5, -1e-4]
+SEQ_DE = [0.0, 1e-9, -1e-9, 1e-7]
+
+
+def check_kepler_seq(case):
+    """kepler_equation(e, M) is called first; the call that follows, with M + d (and e + de), must
+    solve *its own* equation, and then the first pair again."""
+    e, m, d, de = case["e"], case["M"], case["d"], case["de"]
+    e2 = min(max(e + de, 0.0), 0.9999999)
+    try:
+        kepler_equation(e, Angle(m))
+    except Exception as ex:
+        return [("exception", "kepler_equation(%r, %r) raised %r" % (e, m, ex), None)]
+    out = [("seq_" + s_, "after a call with (e, M) = (%r, %r): %s" % (e, m, msg), dev)
+           for s_, msg, dev in check_kepler(e2, m + d)]
+    out += [("seq_" + s_, "after calls with M = %r and M %+g: %s" % (m, d, msg), dev)
+            for s_, msg, dev in check_kepler(e, m)]
+    return out
+
+
+def run_kepler_seq(block, ctx):
+    for case in block:
+        ctx.evals += 3
+        ctx.nt_count += 1
+        ctx.traces += 1
+        res = check_kepler_seq(case)
+        for site, msg, dev in res:
+            ctx.viol(case, msg, dev=dev, site=site)
+        ctx.obs(case, len(res))
+        ctx.outcome((case["e"], len(res)))
+    ctx.sample(block[0])
 
 
 # -- speeds, length, phase -------------------------------------------------------
@@ -337,6 +377,9 @@ def clauses(tier):
     return [
         Clause("kepler", kshards, run_kepler, lambda c: [m for _, m, _ in check_kepler(c["e"], c["M"])],
                floor=1000),
+        Clause("kepler_sequence", chunks([{"e": e, "M": m, "d": d, "de": de} for e in ECCS for m in SEQ_M
+                                          for d in SEQ_D for de in SEQ_DE], 16), run_kepler_seq,
+               lambda c: [m for _, m, _ in check_kepler_seq(c)], floor=1000, shape="H"),
         Clause("orbit", [orbit], run_orbit, lambda c: [m for _, m, _ in check_orbit(c)], floor=10),
         Clause("phase", [phase_cases()], run_phase, lambda c: [m for _, m, _ in check_phase(c)], floor=5),
         Clause("nodes", chunks(node_cases(), 8), run_nodes, lambda c: [m for _, m, _ in check_node(c)],
